@@ -58,7 +58,7 @@ func (p *chainPool) all() []*chainInfo {
 }
 
 type job struct {
-	stream string // scn | recipe | recipe-time | recipe-fwd | recipe-pad | recipe-nil
+	stream string // scn | recipe | recipe-time | recipe-fwd | recipe-pad | recipe-nil | recipe-mid
 	idx    int
 }
 
@@ -75,6 +75,8 @@ func runJob(c *verdict.Ctx, k sink, pool []*chainInfo, j job) {
 		sc = genPadRecipe(c.Rand("recipe-pad", j.idx), j.idx, pool)
 	case "recipe-nil":
 		sc = genNilRecipe(c.Rand("recipe-nil", j.idx), j.idx, pool)
+	case "recipe-mid":
+		sc = genMidRecipe(c.Rand("recipe-mid", j.idx), j.idx, pool)
 	default:
 		sc = genScenario(c.Rand("scn", j.idx), j.idx, pool)
 	}
@@ -210,6 +212,13 @@ func jobList(c *verdict.Ctx, race bool) []job {
 	}
 	for i := 0; i < nnil; i++ {
 		jobs = append(jobs, job{"recipe-nil", i})
+	}
+	nmid := c.N(192, 3840)
+	if race {
+		nmid = c.N(48, 384)
+	}
+	for i := 0; i < nmid; i++ {
+		jobs = append(jobs, job{"recipe-mid", i})
 	}
 	for i := 0; i < nrand; i++ {
 		jobs = append(jobs, job{"scn", i})
